@@ -100,61 +100,127 @@ static inline int64_t spec_dir_y(uint8_t d, int64_t m) {
 static inline double spec_double_from_le(const uint8_t *t, uint64_t pos) {
     uint64_t b = 0;
     for (uint8_t k = 0; k < 8; k++) b |= ((uint64_t)t[pos + k]) << (8 * k);
-    double d;
-    memcpy(&d, &b, 8);
-    return d;
+    union { uint64_t u; double d; } pun;
+    pun.u = b;
+    return pun.d;
 }
 static inline float spec_float_from_le(const uint8_t *t, uint64_t pos) {
     uint32_t b = 0;
     for (uint8_t k = 0; k < 4; k++) b |= ((uint32_t)t[pos + k]) << (8 * k);
-    float d;
-    memcpy(&d, &b, 4);
-    return d;
+    union { uint32_t u; float d; } pun;
+    pun.u = b;
+    return pun.d;
 }
 
-/* ---- decoded view of a real starting at the type byte t[pos] ------------------------------ */
-/* total length in bytes (type byte included), 0 if truncated or malformed, for types 0..7 */
-static inline uint8_t spec_real_len(const uint8_t *t, uint64_t pos, uint64_t len) {
+/* ---- deltas ------------------------------------------------------------------------------- */
+/* 1-delta (skip 1, bit 0 = sign), 2-delta (skip 2, direction E N W S), 3-delta (skip 3, eight
+ * directions): length in bytes, 0 if truncated / longer than 10 bytes / magnitude above 63 bits */
+static inline uint8_t spec_delta_len(const uint8_t *t, uint64_t pos, uint64_t len, uint8_t skip) {
+    uint8_t n = spec_grp_len(t, pos, len);
+    if (n == 0 || n > 10 || spec_int_ovf(t, pos, n, skip)) return 0;
+    return n;
+}
+static inline int64_t spec_delta_x(const uint8_t *t, uint64_t pos, uint64_t len, uint8_t skip) {
+    uint8_t n = spec_grp_len(t, pos, len);
+    int64_t m = (int64_t)spec_int_mag(t, pos, n, skip);
+    uint8_t b = spec_int_bits(t, pos, skip);
+    if (skip == 1) return (b & 1) ? -m : m;
+    return spec_dir_x(b, m);
+}
+static inline int64_t spec_delta_y(const uint8_t *t, uint64_t pos, uint64_t len, uint8_t skip) {
+    uint8_t n = spec_grp_len(t, pos, len);
+    int64_t m = (int64_t)spec_int_mag(t, pos, n, skip);
+    uint8_t b = spec_int_bits(t, pos, skip);
+    if (skip == 1) return 0;
+    return spec_dir_y(b, m);
+}
+/* g-delta */
+static inline uint8_t spec_gdelta_len(const uint8_t *t, uint64_t pos, uint64_t len) {
     if (pos >= len) return 0;
-    uint8_t ty = t[pos];
+    if ((t[pos] & 1) == 0) return spec_delta_len(t, pos, len, 4);
+    uint8_t n1 = spec_delta_len(t, pos, len, 2);
+    if (n1 == 0) return 0;
+    uint8_t n2 = spec_delta_len(t, pos + n1, len, 1);
+    if (n2 == 0) return 0;
+    return (uint8_t)(n1 + n2);
+}
+static inline int64_t spec_gdelta_x(const uint8_t *t, uint64_t pos, uint64_t len) {
+    uint8_t n = spec_grp_len(t, pos, len);
+    if ((t[pos] & 1) == 0)
+        return spec_dir_x((uint8_t)(spec_int_bits(t, pos, 4) >> 1), (int64_t)spec_int_mag(t, pos, n, 4));
+    int64_t m = (int64_t)spec_int_mag(t, pos, n, 2);
+    return (t[pos] & 2) ? -m : m;
+}
+static inline int64_t spec_gdelta_y(const uint8_t *t, uint64_t pos, uint64_t len) {
+    uint8_t n = spec_grp_len(t, pos, len);
+    if ((t[pos] & 1) == 0)
+        return spec_dir_y((uint8_t)(spec_int_bits(t, pos, 4) >> 1), (int64_t)spec_int_mag(t, pos, n, 4));
+    return spec_delta_x(t, pos + n, len, 1);
+}
+
+/* ---- reals: body (after the type byte) and whole (type byte at t[pos]) ----------------------- */
+/* body length in bytes for type ty = 0..7; 0 if truncated or malformed */
+static inline uint8_t spec_realbody_len(uint8_t ty, const uint8_t *t, uint64_t pos, uint64_t len) {
     if (ty <= 3) {
-        uint8_t n = spec_grp_len(t, pos + 1, len);
-        if (n == 0 || n > 10 || spec_uint_ovf(t, pos + 1, n)) return 0;
-        return (uint8_t)(1 + n);
+        uint8_t n = spec_grp_len(t, pos, len);
+        if (n == 0 || n > 10 || spec_uint_ovf(t, pos, n)) return 0;
+        return n;
     }
     if (ty <= 5) {
-        uint8_t n = spec_grp_len(t, pos + 1, len);
-        if (n == 0 || n > 10 || spec_uint_ovf(t, pos + 1, n)) return 0;
-        uint8_t m = spec_grp_len(t, pos + 1 + n, len);
-        if (m == 0 || m > 10 || spec_uint_ovf(t, pos + 1 + n, m)) return 0;
-        return (uint8_t)(1 + n + m);
+        uint8_t n = spec_grp_len(t, pos, len);
+        if (n == 0 || n > 10 || spec_uint_ovf(t, pos, n)) return 0;
+        uint8_t m = spec_grp_len(t, pos + n, len);
+        if (m == 0 || m > 10 || spec_uint_ovf(t, pos + n, m)) return 0;
+        return (uint8_t)(n + m);
     }
-    if (ty == 6) return pos + 5 <= len ? 5 : 0;
-    if (ty == 7) return pos + 9 <= len ? 9 : 0;
+    if (ty == 6) return pos + 4 <= len ? 4 : 0;
+    if (ty == 7) return pos + 8 <= len ? 8 : 0;
     return 0;
 }
-
-/* value of a well-formed real (spec_real_len != 0) */
-static inline double spec_real_val(const uint8_t *t, uint64_t pos, uint64_t len) {
-    uint8_t ty = t[pos];
+static inline double spec_realbody_val(uint8_t ty, const uint8_t *t, uint64_t pos, uint64_t len) {
     if (ty <= 5) {
-        uint8_t n = spec_grp_len(t, pos + 1, len);
-        uint64_t a = spec_uint_val(t, pos + 1, n);
+        uint8_t n = spec_grp_len(t, pos, len);
+        uint64_t a = spec_uint_val(t, pos, n);
         if (ty == 0) return (double)a;
         if (ty == 1) return -(double)a;
         if (ty == 2) return 1.0 / (double)a;
         if (ty == 3) return -1.0 / (double)a;
-        uint8_t m = spec_grp_len(t, pos + 1 + n, len);
-        uint64_t b = spec_uint_val(t, pos + 1 + n, m);
+        uint8_t m = spec_grp_len(t, pos + n, len);
+        uint64_t b = spec_uint_val(t, pos + n, m);
         if (ty == 4) return (double)a / (double)b;
         return -(double)a / (double)b;
     }
-    if (ty == 6) return (double)spec_float_from_le(t, pos + 1);
-    return spec_double_from_le(t, pos + 1);
+    if (ty == 6) return (double)spec_float_from_le(t, pos);
+    return spec_double_from_le(t, pos);
+}
+static inline uint8_t spec_real_len(const uint8_t *t, uint64_t pos, uint64_t len) {
+    if (pos >= len || t[pos] > 7) return 0;
+    uint8_t b = spec_realbody_len(t[pos], t, pos + 1, len);
+    return b ? (uint8_t)(b + 1) : 0;
+}
+static inline double spec_real_val(const uint8_t *t, uint64_t pos, uint64_t len) {
+    return spec_realbody_val(t[pos], t, pos + 1, len);
 }
 
 static inline bool spec_same_double(double a, double b) {
     /* equal as reals; NaN equals NaN; +0 and -0 are the same real */
     return (a != a && b != b) || a == b;
+}
+static inline bool spec_finite(double a) { return a == a && a - a == 0.0; }
+
+/* expression macros (loop invariants may not contain calls) */
+#define SPEC_BSWAP16(b) ((uint16_t)((((uint32_t)(b) & 0xffu) << 8) | (((uint32_t)(b) >> 8) & 0xffu)))
+#define SPEC_BSWAP32(b) ((uint32_t)((((uint32_t)(b) & 0xffu) << 24) | (((uint32_t)(b) & 0xff00u) << 8) | (((uint32_t)(b) >> 8) & 0xff00u) | ((uint32_t)(b) >> 24)))
+#define SPEC_BYTE(b, k) (((uint64_t)(b) >> (8 * (k))) & 0xffu)
+#define SPEC_BSWAP64(b) ((SPEC_BYTE(b, 0) << 56) | (SPEC_BYTE(b, 1) << 48) | (SPEC_BYTE(b, 2) << 40) | (SPEC_BYTE(b, 3) << 32) | \
+                         (SPEC_BYTE(b, 4) << 24) | (SPEC_BYTE(b, 5) << 16) | (SPEC_BYTE(b, 6) << 8) | SPEC_BYTE(b, 7))
+static inline uint16_t spec_bswap16(uint16_t b) { return (uint16_t)((b << 8) | (b >> 8)); }
+static inline uint32_t spec_bswap32(uint32_t b) {
+    return ((b & 0xffu) << 24) | ((b & 0xff00u) << 8) | ((b >> 8) & 0xff00u) | (b >> 24);
+}
+static inline uint64_t spec_bswap64(uint64_t b) {
+    uint64_t r = 0;
+    for (uint8_t k = 0; k < 8; k++) r |= ((b >> (8 * k)) & 0xffu) << (8 * (7 - k));
+    return r;
 }
 #endif
